@@ -1,26 +1,27 @@
-From Coq Require Import List Arith NArith ZArith QArith Bool Lia.
+(* Model of nautilus/prior.py (class Prior) -- definitions only, no proofs.
+   Mirrors: add_parameter (prior.py 27-76), dimensionality (78-88), unit_to_physical (90-122),
+   physical_to_dictionary (124-161), unit_to_dictionary (163-181).
+
+   Python objects are abstracted as follows (the harness canonicalises, see harness/c15.py):
+     key  : None | a string ("x_<n>" is Auto n, any other string Named p) | anything else (KBad)
+     dist : tuple (lo,hi) | object with .isf (FDist id) | number | string (link) | anything else (RBad)
+   The inverse survival function of a free parameter is an oracle `isf` (Section variable). *)
+From Coq Require Import List Arith NArith ZArith QArith Bool.
 Import ListNotations.
 
-(* keys: Auto n is the string "x_<n>", Named p any other string (harness canonicalises) *)
 Inductive kid := Auto (n : nat) | Named (p : positive).
 Definition kid_eqb (a b : kid) : bool :=
   match a, b with Auto n, Auto m => Nat.eqb n m | Named p, Named q => Pos.eqb p q | _, _ => false end.
-Lemma kid_eqb_eq a b : kid_eqb a b = true <-> a = b.
-Proof.
-  destruct a, b; simpl; split; intros H; try discriminate; try (inversion H; subst).
-  - apply Nat.eqb_eq in H. now subst.
-  - apply Nat.eqb_refl.
-  - apply Pos.eqb_eq in H. now subst.
-  - apply Pos.eqb_refl.
-Qed.
 
 Inductive rawkey := KNone | KStr (k : kid) | KBad.
 Inductive free := FUniform (lo hi : Q) | FDist (d : positive).
 Inductive rawdist := RFree (f : free) | RFixed (v : Q) | RLink (k : kid) | RBad.
 Inductive dist := DFree (f : free) | DFixed (v : Q) | DLink (k : kid).
 Record prior := mkP { keys : list kid; dists : list dist }.
-Inductive err := TypeErr | ValueErr | IndexErr.   (* IndexErr only arises in the as-is model *)
-Inductive res := Ok (p : prior) | Err (e : err).
+Inductive err := TypeErr | ValueErr | IndexErr.   (* IndexErr only arises in the as-is model (PriorAsIs.v) *)
+(* The Python object is mutable: an exception leaves *some* prior behind.  Both outcomes carry the state after. *)
+Inductive res := Ok (p : prior) | Err (p : prior) (e : err).
+Definition state_of (r : res) : prior := match r with Ok p => p | Err p _ => p end.
 
 Definition memk (k : kid) (l : list kid) : bool := existsb (kid_eqb k) l.
 Fixpoint lookup (k : kid) (ks : list kid) (ds : list dist) : option dist :=
@@ -29,40 +30,55 @@ Fixpoint lookup (k : kid) (ks : list kid) (ds : list dist) : option dist :=
   | _, _ => None
   end.
 
-(* the repaired add_parameter: validate everything, then append *)
+(* add_parameter as it is in the repaired tree: validate key, validate dist, then append both *)
 Definition add_parameter (p : prior) (rk : rawkey) (rd : rawdist) : res :=
   match (match rk with KNone => inl (Auto (length (keys p))) | KStr k => inl k | KBad => inr TypeErr end) with
-  | inr e => Err e
+  | inr e => Err p e
   | inl k =>
-    if memk k (keys p) then Err ValueErr else
+    if memk k (keys p) then Err p ValueErr else
     match rd with
-    | RBad => Err TypeErr
+    | RBad => Err p TypeErr
     | RFree f => Ok (mkP (keys p ++ [k]) (dists p ++ [DFree f]))
     | RFixed v => Ok (mkP (keys p ++ [k]) (dists p ++ [DFixed v]))
     | RLink t =>
       match lookup t (keys p) (dists p) with
-      | None => Err ValueErr                       (* undeclared target (this includes a link to itself) *)
-      | Some (DLink t') => Ok (mkP (keys p ++ [k]) (dists p ++ [DLink t']))   (* chains resolved at declaration *)
+      | None => Err p ValueErr                     (* undeclared target; the key itself is not yet declared, so a self link lands here *)
+      | Some (DLink t') => Ok (mkP (keys p ++ [k]) (dists p ++ [DLink t']))   (* chains are resolved at declaration *)
       | Some _ => Ok (mkP (keys p ++ [k]) (dists p ++ [DLink t]))
       end
     end
   end.
 
+Definition empty : prior := mkP [] [].
+Definition decl := (rawkey * rawdist)%type.
+Definition declare (p : prior) (d : decl) : prior := state_of (add_parameter p (fst d) (snd d)).
+Definition run_decls (ds : list decl) : prior := fold_left declare ds empty.
+
 Definition is_free (d : dist) : bool := match d with DFree _ => true | _ => false end.
 Definition dimensionality (p : prior) : nat := length (filter is_free (dists p)).
+Fixpoint frees (ds : list dist) : list free :=
+  match ds with [] => [] | DFree f :: r => f :: frees r | _ :: r => frees r end.
 
 Section Sem.
 Variable isf : free -> Q -> Q.      (* inverse survival function, oracle *)
 
-(* unit_to_physical on one point *)
-Fixpoint u2p (ds : list dist) (u : list Q) : list Q :=
+(* unit_to_physical on one point; None is the ValueError for a dimensionality mismatch *)
+Fixpoint u2p_go (ds : list dist) (u : list Q) : list Q :=
   match ds with
   | [] => []
-  | DFree f :: ds' => match u with x :: u' => isf f (1 - x) :: u2p ds' u' | [] => [] end
-  | _ :: ds' => u2p ds' u
+  | DFree f :: ds' => match u with x :: u' => isf f (1 - x) :: u2p_go ds' u' | [] => [] end
+  | _ :: ds' => u2p_go ds' u
   end.
+Definition unit_to_physical (p : prior) (u : list Q) : option (list Q) :=
+  if Nat.eqb (dimensionality p) (length u) then Some (u2p_go (dists p) u) else None.
+(* an (n,d) array is transformed row by row *)
+Fixpoint mapM {A B} (f : A -> option B) (l : list A) : option (list B) :=
+  match l with [] => Some [] | x :: r =>
+    match f x, mapM f r with Some y, Some ys => Some (y :: ys) | _, _ => None end end.
+Definition unit_to_physical_rows (p : prior) (us : list (list Q)) : option (list (list Q)) :=
+  mapM (unit_to_physical p) us.
 
-(* physical_to_dictionary: first pass free/fixed, second pass links *)
+(* physical_to_dictionary: first pass free/fixed, second pass links; None in pass 2 is a KeyError *)
 Fixpoint pass1 (ks : list kid) (ds : list dist) (ph : list Q) : list (kid * Q) :=
   match ks, ds with
   | k :: ks', DFree _ :: ds' => match ph with x :: ph' => (k, x) :: pass1 ks' ds' ph' | [] => [] end
@@ -79,75 +95,16 @@ Fixpoint pass2 (ks : list kid) (ds : list dist) (d1 : list (kid * Q)) : option (
   | _ :: ks', _ :: ds' => pass2 ks' ds' d1
   | _, _ => Some []
   end.
+(* `np.ones(phys_points[..., 0].shape) * dist` indexes coordinate 0: with no free parameter at all a fixed
+   parameter makes the implementation raise IndexError.  The model returns the error too (None); the property
+   theorem C15_dict is stated for priors with at least one free parameter (the sampler needs two). *)
+Definition is_fixed (d : dist) : bool := match d with DFixed _ => true | _ => false end.
+Definition physical_to_dictionary (p : prior) (ph : list Q) : option (list (kid * Q)) :=
+  if Nat.eqb (dimensionality p) (length ph) then
+    if Nat.eqb (dimensionality p) 0 && existsb is_fixed (dists p) then None else
+    let d1 := pass1 (keys p) (dists p) ph in
+    match pass2 (keys p) (dists p) d1 with Some d2 => Some (d1 ++ d2) | None => None end
+  else None.
+Definition unit_to_dictionary (p : prior) (u : list Q) : option (list (kid * Q)) :=
+  match unit_to_physical p u with Some ph => physical_to_dictionary p ph | None => None end.
 End Sem.
-
-(* ---- invariants ---- *)
-Definition nonlink_target (p : prior) (d : dist) : Prop :=
-  match d with DLink t => exists d', lookup t (keys p) (dists p) = Some d' /\ (forall t', d' <> DLink t') | _ => True end.
-Definition WF (p : prior) : Prop :=
-  length (keys p) = length (dists p) /\ NoDup (keys p) /\ Forall (nonlink_target p) (dists p).
-
-Definition empty : prior := mkP [] [].
-Lemma WF_empty : WF empty.
-Proof. repeat split; simpl; constructor. Qed.
-
-Lemma memk_In k l : memk k l = true <-> In k l.
-Proof.
-  unfold memk. rewrite existsb_exists. split.
-  - intros (x & Hx & He). apply kid_eqb_eq in He. now subst.
-  - intros H. exists k. split; auto. now apply kid_eqb_eq.
-Qed.
-
-Lemma lookup_app_old t ks ds k d dd : length ks = length ds ->
-  lookup t ks ds = Some dd -> lookup t (ks ++ [k]) (ds ++ [d]) = Some dd.
-Proof.
-  revert ds. induction ks as [|k0 ks IH]; intros [|d0 ds] HL H; simpl in *; try discriminate.
-  destruct (kid_eqb t k0); auto.
-Qed.
-
-Theorem C15_reject p rk rd e : add_parameter p rk rd = Err e -> True.   (* the prior is a value: rejection returns no new prior at all *)
-Proof. trivial. Qed.
-
-Theorem C15_inv p rk rd p' : WF p -> add_parameter p rk rd = Ok p' -> WF p'.
-Proof.
-  intros (HL & HN & HT). unfold add_parameter.
-  destruct (match rk with KNone => inl (Auto (length (keys p))) | KStr k => inl k | KBad => inr TypeErr end) as [k|e]; [|discriminate].
-  destruct (memk k (keys p)) eqn:Hm; [discriminate|].
-  assert (Hnk : ~ In k (keys p)) by (intros Hin; apply memk_In in Hin; congruence).
-  assert (HN' : NoDup (keys p ++ [k])).
-  { apply NoDup_app_iff' || idtac. 
-    rewrite <- (rev_involutive (keys p ++ [k])). apply NoDup_rev. rewrite rev_app_distr. simpl.
-    constructor; [rewrite <- in_rev; auto|apply NoDup_rev; auto]. }
-  assert (Hold : forall d0, nonlink_target p d0 -> forall dn, nonlink_target (mkP (keys p ++ [k]) (dists p ++ [dn])) d0).
-  { intros [f|v|t] H dn; simpl in *; auto. destruct H as (d' & Hl & Hn). exists d'. split; auto. now apply lookup_app_old. }
-  destruct rd as [f|v|t|]; try discriminate.
-  - intros E; inversion E; subst; clear E. repeat split; simpl; auto.
-    + rewrite !app_length; simpl; lia.
-    + apply Forall_app; split; [|repeat constructor]. eapply Forall_impl; [|exact HT]. intros a Ha. now apply Hold.
-  - intros E; inversion E; subst; clear E. repeat split; simpl; auto.
-    + rewrite !app_length; simpl; lia.
-    + apply Forall_app; split; [|repeat constructor]. eapply Forall_impl; [|exact HT]. intros a Ha. now apply Hold.
-  - destruct (lookup t (keys p) (dists p)) as [dt|] eqn:Hl; [|discriminate].
-    assert (Hin : forall ks ds tt dd, lookup tt ks ds = Some dd -> In dd ds).
-    { induction ks as [|k0 ks IH]; intros [|d0 ds] tt dd H; simpl in *; try discriminate.
-      destruct (kid_eqb tt k0); [inversion H; auto|right; eapply IH; eauto]. }
-    destruct dt as [f|v|t'].
-    + intros E; inversion E; subst; clear E. repeat split; simpl; auto.
-      * rewrite !app_length; simpl; lia.
-      * apply Forall_app; split.
-        -- eapply Forall_impl; [|exact HT]. intros a Ha. now apply Hold.
-        -- constructor; [|constructor]. simpl. exists (DFree f). split; [now apply lookup_app_old|discriminate].
-    + intros E; inversion E; subst; clear E. repeat split; simpl; auto.
-      * rewrite !app_length; simpl; lia.
-      * apply Forall_app; split.
-        -- eapply Forall_impl; [|exact HT]. intros a Ha. now apply Hold.
-        -- constructor; [|constructor]. simpl. exists (DFixed v). split; [now apply lookup_app_old|discriminate].
-    + intros E; inversion E; subst; clear E.
-      pose proof (Hin _ _ _ _ Hl) as Hd. pose proof HT as HT0. rewrite Forall_forall in HT. specialize (HT _ Hd). simpl in HT.
-      destruct HT as (d' & Hl' & Hn'). repeat split; simpl; auto.
-      * rewrite !app_length; simpl; lia.
-      * apply Forall_app; split.
-        -- eapply Forall_impl; [|exact HT0]. intros a Ha. now apply Hold.
-        -- constructor; [|constructor]. simpl. exists d'. split; [now apply lookup_app_old|auto].
-Qed.
-Print Assumptions C15_inv.
